@@ -10,10 +10,17 @@
                          + core/src/{de,}serializer/struct_.rs, enum_.rs): decode v as the generated
                          type, then encode that; [ok |-> accepted, out |-> re-encoded Value]
      Norm(v, t), Equiv   declarative: the value the re-encoding must be / the meaning of "equivalent"
+     NormMax(v, t)       the most verbose equivalent re-encoding (unset optional fields as explicit None):
+                         what lies between Norm and NormMax is equivalent but not the reference's output
    DecodeVerdict / Reencode are the names used by the design; they are projections of Trans.
+   MutationsOf(d, salt): the systematic non-instances of a definition (required field missing, wrongly
+   typed field -- wrong kind, right container with wrong content, wrong key kind, wrong array length --,
+   unknown variant without fallback, payload on a unit variant, wrong kind of the whole value).
 
    Corpus(seed, thorough): the bounded corpus of schema definitions (library definitions, structs,
-   enums, newtypes, old/new pairs) and, per definition, conforming values and systematic mutations. *)
+   enums, newtypes, old/new pairs) and, per definition, conforming values and systematic mutations.
+   Theorems (ThmConforming, ThmMutation, ThmFieldAdded, ThmVariantAdded, ThmType) are evaluated by TLC in
+   SchemaTypes_MC on every element of the corpus and on every type expression of the list FT. *)
 EXTENDS Integers, Sequences, FiniteSets, TLC, SequencesExt
 
 --------------------------------------------------------------------------------
@@ -324,6 +331,14 @@ ThmConforming(v, d) ==
   /\ (d.d = "enum" /\ v.id \notin VarIds(d)) => r.out = v         \* (only possible with a fallback)
 ThmMutation(m, d) == ~ConformsDef(m, d) /\ ~TransDef(m, d).ok
 
+\* type expressions on their own: declarative and operational reading agree on every value offered
+ThmType(t, samples, others) ==
+  /\ \A i \in 1..Len(samples) :
+       LET x == samples[i]  r == Trans(x, t) IN
+       /\ Conforms(x, t) /\ r.ok /\ r.out = Norm(x, t) /\ Conforms(r.out, t) /\ Equiv(x, r.out, t) /\ Trans(r.out, t) = r
+       /\ LET mx == NormMax(x, t) IN Conforms(mx, t) /\ Equiv(x, mx, t) /\ Trans(mx, t) = r
+  /\ \A i \in 1..Len(others) : Conforms(others[i], t) <=> Trans(others[i], t).ok
+
 \* old/new schema pairs: v is data written by the NEW schema
 ThmFieldAdded(v, old, new, newid) ==
   LET r1 == TransDef(v, old) IN
@@ -543,7 +558,8 @@ PairItems(p) ==
 
 Corpus(seed, thorough) ==
   LET z == Sizes(thorough)  s == seed
-      eb == 3 * z.ns + 5  nb == eb + 3 * z.ne + 5  pb == nb + z.nn + 5
+      \* slot ranges follow each other, so that the thorough corpus walks the whole list FT
+      eb == SlotsBefore(z.ns + 1, s) - 3  nb == eb + 3 * z.ne + 3  pb == nb + z.nn - 2
       q0 == IF thorough THEN 0 ELSE 3 * s
   IN [i \in 1..Len(LibNames) |-> Entry(Lib[LibNames[i]], IF LibNames[i] \in LibExtern THEN "lib" ELSE "intern", SelfItems(Lib[LibNames[i]], i))]
      \o [i \in 1..z.ns |-> LET d == GenStruct(i, s, Nm("S", i)) IN Entry(d, HomeOf(i), SelfItems(d, i + s))]
